@@ -250,8 +250,61 @@ func HandlerSeq(a Args) {
 				nops = 16 // the chunked handler does not implement gete
 			}
 			op := rng.Intn(nops)
+			if rng.Intn(8) == 0 {
+				op = 99 // multi-key get
+			}
 			begin(map[string]interface{}{"trace": tr, "call": i, "opcode": op, "k": k, "next_block": nextBlock})
 			switch op {
+			case 99:
+				// a get of several keys (repeats allowed); every response is KEPT until the handler has
+				// closed its channels and only then looked at, the way a consumer that gathers a batch
+				// does: a response must not change after it was handed over
+				n := 2 + rng.Intn(3)
+				c = MCmd{Op: "get"}
+				req := common.GetRequest{}
+				for j := 0; j < n; j++ {
+					kk := keys[rng.Intn(len(keys))]
+					c.Keys = append(c.Keys, kk)
+					c.Quiet = append(c.Quiet, false)
+					ks, _ := keySlice(w.Key(kk), spare)
+					req.Keys = append(req.Keys, ks)
+					req.Opaques = append(req.Opaques, uint32(100+j))
+					req.Quiet = append(req.Quiet, false)
+				}
+				rc, ec := h.Get(req)
+				var got []common.GetResponse
+				var gerr error
+				for rc != nil || ec != nil {
+					select {
+					case r, ok := <-rc:
+						if !ok {
+							rc = nil
+						} else {
+							got = append(got, r)
+						}
+					case e, ok := <-ec:
+						if !ok {
+							ec = nil
+						} else {
+							gerr = e
+						}
+					}
+				}
+				if gerr != nil {
+					res = handlerRes(gerr)
+				} else {
+					items := make([]interface{}, len(c.Keys))
+					for j := range items {
+						items[j] = []interface{}{"malformed"}
+					}
+					for _, r := range got {
+						j := int(r.Opaque) - 100
+						if j >= 0 && j < len(items) {
+							items[j] = item(r.Miss, r.Data, r.Flags)
+						}
+					}
+					res = []interface{}{"multi", items}
+				}
 			case 14, 15:
 				c = MCmd{Op: "gete", K: k}
 				rc, ec := h.GetE(common.GetRequest{Keys: [][]byte{key}, Opaques: []uint32{7}, Quiet: []bool{false}})
